@@ -623,7 +623,7 @@ def write_capture(b, workdir, pkts=None, container=None, keys=None, name="in"):
         path = os.path.join(workdir, name + ".pcapng")
         netio.write_pcapng(path, items, endian=c["endian"], tsresol=c["tsresol"], tsoffset=c["tsoffset"], offset_first=bool(c.get("offset_first")),
                            snaplen=c.get("snaplen", 0), pre_idb=pre_idb, ifaces=c.get("ifaces", 1), late_idb=bool(c.get("late_idb")), idle_first=c.get("idle_first"),
-                           section_length=bool(c.get("section_length")))
+                           section_length=bool(c.get("section_length")), packet_blocks=c.get("packet_blocks"))
     else:
         path = os.path.join(workdir, name + ".pcap")
         netio.write_pcap(path, items, endian=c["endian"], nano=c["nano"])
